@@ -150,8 +150,16 @@ func judgeC02(rep *core.Report, fi *FuncInfo, recs []*execmon.Rec) {
 				if pr := MechOf(fi.Method, path); pr != nil {
 					mech = pr.Mech
 				}
+				// a :skip probe wraps the mechanism it was laid over (its Extra ends in "/map", "/conv", ...)
+				explicit := false
+				for _, pr := range fi.Method.Probes {
+					if pr.Dst == path && (pr.Mech == "map" || pr.Mech == "conv" || strings.HasSuffix(pr.Extra, "/map") || strings.HasSuffix(pr.Extra, "/conv")) {
+						explicit = true
+						mech = "map/conv"
+					}
+				}
 				susp[mech] = true
-				if mech != "map" && mech != "conv" {
+				if !explicit {
 					explicitOnly = false
 				}
 			}
